@@ -85,6 +85,103 @@ static inline void fill_bytes(void* p, unsigned char b, size_t n) {
 static inline void hdr_poison(void* base, size_t n) { if (__asan_poison_memory_region) __asan_poison_memory_region(base, n); }
 static inline void hdr_unpoison(void* base, size_t n) { if (__asan_unpoison_memory_region) __asan_unpoison_memory_region(base, n); }
 
+// ---- seeded arena for in-scope (library) allocations -------------------------------------------------------
+// Every execution starts from the same empty arena, so the heap layout the library sees (relative addresses, address
+// order, reuse pattern) is a pure function of (allocator key, allocation sequence) and not of what the process did
+// before: results that depend on pointer values reproduce in a fresh process, and twin executions under different keys
+// see different address orders. Under ASan everything but live user bytes stays poisoned (header, tail redzone, free
+// slots), so overflows and use-after-free inside the arena are still reported. Not used under TSan.
+static const int NCLS = 34;
+static size_t g_cls_size[NCLS];
+static char* g_ar_base = nullptr; static const size_t AR_CAP = 3ull << 30;
+static size_t g_ar_bump = 0, g_ar_hw = 0, g_ar_start = 0;
+static uint32_t g_fl_head[NCLS], g_fl_tail[NCLS], g_fl_len[NCLS], g_fl_pre[NCLS];   // offsets / 16; 0 = empty
+static bool g_ar_lifo = false; static uint32_t g_ar_quarantine = 0;
+static int64_t g_ar_live = 0; static bool g_ar_force_rewind = false;
+static bool g_ar_enabled = false;
+
+static inline Hdr* ar_hdr(uint32_t off16) { return (Hdr*)(g_ar_base + (size_t)off16 * 16); }
+static int cls_of(size_t need) { for (int c = 0; c < NCLS; ++c) if (g_cls_size[c] >= need) return c; return -1; }
+static void fl_push(int c, uint32_t off16, bool front) {
+  Hdr* h = ar_hdr(off16); h->pad[0] = 0;
+  if (!g_fl_head[c]) { g_fl_head[c] = g_fl_tail[c] = off16; }
+  else if (front) { h->pad[0] = g_fl_head[c]; g_fl_head[c] = off16; }
+  else { ar_hdr(g_fl_tail[c])->pad[0] = off16; g_fl_tail[c] = off16; }
+  ++g_fl_len[c];
+}
+static uint32_t fl_pop(int c) {
+  uint32_t o = g_fl_head[c]; if (!o) return 0;
+  g_fl_head[c] = (uint32_t)ar_hdr(o)->pad[0]; if (!g_fl_head[c]) g_fl_tail[c] = 0;
+  --g_fl_len[c]; return o;
+}
+static void arena_init() {
+  size_t s = 64; int c = 0;
+  while (c < NCLS) { g_cls_size[c++] = s; if (c < NCLS) g_cls_size[c++] = s + s / 2; s *= 2; }
+  void* m = mmap(nullptr, AR_CAP, PROT_READ | PROT_WRITE, MAP_PRIVATE | MAP_ANONYMOUS | MAP_NORESERVE, -1, 0);
+  if (m == MAP_FAILED) return;
+  g_ar_base = (char*)m; g_ar_enabled = true;
+  if (__asan_poison_memory_region) __asan_poison_memory_region(g_ar_base, 1 << 20);
+}
+static void arena_reset(uint64_t env) {
+  if (!g_ar_enabled) return;
+  uint64_t s = env * 0xD1342543DE82EF95ull + 99;
+  auto nx = [&]() { s ^= s << 13; s ^= s >> 7; s ^= s << 17; return s; };
+  bool rewind = g_ar_live == 0 || g_ar_force_rewind || g_ar_bump > (AR_CAP / 2);
+  // live blocks of a fault-free execution may still be referenced (a reported leak, or a permanent allocation
+  // inside libstdc++): then the arena continues behind them instead of recycling them
+  if (rewind) {
+    if (__asan_poison_memory_region && g_ar_hw) __asan_poison_memory_region(g_ar_base, g_ar_hw);
+    g_ar_bump = 0; g_ar_hw = 0; g_ar_live = 0;
+  }
+  g_ar_force_rewind = false;
+  for (int c = 0; c < NCLS; ++c) g_fl_head[c] = g_fl_tail[c] = g_fl_len[c] = g_fl_pre[c] = 0;
+  g_ar_bump = (g_ar_bump + 4095) & ~(size_t)4095;
+  g_ar_bump += 4096 + (size_t)(nx() % 256) * 64;           // start offset
+  g_ar_start = g_ar_bump;
+  g_ar_lifo = nx() & 1; g_ar_quarantine = (uint32_t)(nx() % 48);
+  // pre-carve a few slots per small class and queue them in shuffled order: early allocations of one size come
+  // in a seeded address order (pointer-order dependence then differs between twin executions)
+  for (int c = 0; c < 12; ++c) {
+    uint32_t k = (uint32_t)(nx() % 20); uint32_t offs[20];
+    for (uint32_t i = 0; i < k; ++i) { offs[i] = (uint32_t)(g_ar_bump / 16); g_ar_bump += g_cls_size[c]; }
+    for (uint32_t i = k; i > 1; --i) { uint32_t j = (uint32_t)(nx() % i); uint32_t t = offs[i - 1]; offs[i - 1] = offs[j]; offs[j] = t; }
+    for (uint32_t i = 0; i < k; ++i) { Hdr* h = ar_hdr(offs[i]); if (__asan_unpoison_memory_region) __asan_unpoison_memory_region(h, sizeof(Hdr)); h->magic = 0; fl_push(c, offs[i], false); if (__asan_poison_memory_region) __asan_poison_memory_region(h, sizeof(Hdr)); }
+    g_fl_pre[c] = k;
+  }
+  if (g_ar_bump > g_ar_hw) g_ar_hw = g_ar_bump;
+}
+// returns user pointer or nullptr (caller falls back to malloc)
+static void* arena_alloc(size_t n, int kind) {
+  if (!g_ar_enabled) return nullptr;
+  int c = cls_of(n + sizeof(Hdr) + 16);
+  if (c < 0) return nullptr;
+  uint32_t o = 0;
+  if (g_fl_pre[c] > 0) { o = fl_pop(c); --g_fl_pre[c]; }
+  else if (g_fl_len[c] > (g_ar_lifo ? 0u : g_ar_quarantine)) o = fl_pop(c);
+  if (!o) {
+    if (g_ar_bump + g_cls_size[c] > AR_CAP) return nullptr;
+    o = (uint32_t)(g_ar_bump / 16); g_ar_bump += g_cls_size[c];
+    if (g_ar_bump > g_ar_hw) g_ar_hw = g_ar_bump;
+  }
+  Hdr* h = ar_hdr(o);
+  if (__asan_unpoison_memory_region) __asan_unpoison_memory_region(h, sizeof(Hdr));
+  h->size = n; h->magic = MAGIC; h->kind = (uint8_t)kind; h->inscope = 2; h->off = (uint16_t)sizeof(Hdr); h->pad[0] = 0; h->pad[1] = (uint64_t)c;
+  void* user = (char*)h + sizeof(Hdr);
+  if (__asan_unpoison_memory_region) __asan_unpoison_memory_region(user, n);
+  if (__asan_poison_memory_region) __asan_poison_memory_region(h, sizeof(Hdr));
+  ++g_ar_live;
+  return user;
+}
+static void arena_free(Hdr* h, void* user) {
+  int c = (int)h->pad[1];
+  if (__asan_poison_memory_region) __asan_poison_memory_region(user, h->size);
+  uint32_t o = (uint32_t)(((char*)h - g_ar_base) / 16);
+  fl_push(c, o, g_ar_lifo);
+  if (__asan_poison_memory_region) __asan_poison_memory_region(h, sizeof(Hdr));
+  --g_ar_live;
+}
+void rt_arena_expect_leaks() { g_ar_force_rewind = true; }
+
 void rt_set_env(uint64_t env) {
   rt_env_release();
   g_env = env;
@@ -101,6 +198,7 @@ void rt_set_env(uint64_t env) {
     void* p = malloc(sz);
     if (nx() & 1) free(p); else g_spacers[g_spacer_n++] = p;
   }
+  arena_reset(env);
 }
 static void real_free(void* user) {
   Hdr* h = (Hdr*)((char*)user - sizeof(Hdr));
@@ -138,6 +236,18 @@ static void* sim_alloc(size_t n, bool nothrow, int kind, size_t align) {
     if ((int64_t)n > MAX_REQUEST)
       rt_die(80, "kind=alloc-too-large bytes=%zu op=%d guard=%u", n, t->op, t->last_guard);
   }
+  if (inscope && align <= 16) {
+    void* user = arena_alloc(n, kind);
+    if (user) {
+      fill_bytes(user, g_fill, n);
+      ++g_as.live_blocks; g_as.live_bytes += (int64_t)n;
+      if (g_as.live_bytes > g_as.peak_bytes) g_as.peak_bytes = g_as.live_bytes;
+      if ((int64_t)n > g_as.max_request) g_as.max_request = (int64_t)n;
+      if (g_as.live_bytes > MAX_LIVE)
+        rt_die(80, "kind=memory-unbounded live_bytes=%lld op=%d guard=%u", (long long)g_as.live_bytes, t->op, t->last_guard);
+      return user;
+    }
+  }
   size_t off = sizeof(Hdr);
   void* base;
   if (align > 16) { off = align > sizeof(Hdr) ? align : sizeof(Hdr); base = aligned_alloc(align, ((n + off + align - 1) / align) * align); }
@@ -174,6 +284,7 @@ static void sim_free(void* user, int kind) {
   if (h->inscope) { --g_as.live_blocks; g_as.live_bytes -= (int64_t)h->size; }
   h->magic = 0xDEADF4EEu;
   fill_bytes(user, g_free_fill, h->size);
+  if (h->inscope == 2) { arena_free(h, user); return; }
   hdr_poison((char*)user - h->off, h->off);
   if (g_defer_cap > 0) {
     if (g_defer_n < g_defer_cap) { g_defer[g_defer_n++] = user; return; }
@@ -393,6 +504,7 @@ void rt_run_tasks(int ntasks, TaskFn fn, void* arg, ChooseFn choose, void* cctx,
 
 void rt_init(const char* status_path) {
   tl_cur = &g_main_ctx;
+  if (!__tsan_init && !getenv("SIM_NO_ARENA")) arena_init();
   if (status_path && *status_path) {
     int fd = open(status_path, O_RDWR | O_CREAT, 0644);
     if (fd >= 0) {
